@@ -27,7 +27,7 @@ import (
 	"verif/vk"
 )
 
-var coreNames = []string{"hsmem", "memory", "localdisk", "diskpacked-default", "blobpacked", "encrypt", "replica2", "namespace"}
+var coreNames = []string{"hsmem", "memory", "localdisk", "diskpacked-default", "blobpacked", "encrypt", "replica2", "namespace", "overlay-deleted"}
 
 type bspec struct {
 	name string
@@ -133,7 +133,13 @@ func allGroups(specs []bspec) []*group {
 		nv := len(smallVariants(smallT(L)))
 		for _, bs := range specs {
 			for _, p := range smallPaths(kindOf(bs.name)) {
-				for _, pre := range []string{"absent", "present"} {
+				pres := []string{"absent", "present"}
+				if strings.HasPrefix(bs.name, "overlay-deleted") {
+					// T sits in the lower layer and was removed through the overlay (tombstone):
+					// a rejected upload under its ref must not bring it back
+					pres = append(pres, "lower-removed")
+				}
+				for _, pre := range pres {
 					for ch := 0; ch*chunkSize < nv; ch++ {
 						out = append(out, &group{Scenario: "small", bs: bs, Path: p, TLen: L, Pre: pre, Chunk: ch})
 					}
@@ -222,7 +228,7 @@ func (gr *group) cases() []*tcase {
 	var out []*tcase
 	for _, v := range vs[lo:hi] {
 		for _, kind := range refKindsAll {
-			if gr.Pre == "present" && !isTKind(kind) {
+			if (gr.Pre == "present" || gr.Pre == "lower-removed") && !isTKind(kind) {
 				continue
 			}
 			R, ok := mkRef(kind, T, v.Data)
